@@ -10,6 +10,7 @@
 -/
 import ASV.Proofs.ProtoRules
 import ASV.Proofs.Components
+import ASV.Proofs.ProtoExtend
 namespace ASV.C03
 open ASV ASV.Rules ASV.Proto ASV.Chains ASV.ChainSweep
 
@@ -181,6 +182,44 @@ theorem ancillary_within_cutoff (ni : NearInfo) (c : Int)
   simp only [envOf, Env.ofLocs, List.mem_map] at hg
   exact hg
 
+/-- **EXTENDERS: the admitted genes are determined by the walk rules**, and `Chains.specWalk` (what the
+    driver evaluates on the implementation's output) computes them: it satisfies `ExtWalk`, and any list
+    satisfying `ExtWalk` equals it. -/
+theorem extenders_walk_determined (c : Int) (dist : GeneInfo → GeneInfo → Int) (ext inCore : GeneInfo → Bool)
+    (ref : GeneInfo) (w : List GeneInfo) :
+    ExtWalk c dist ext inCore ref w (specWalk c dist ext inCore ref w) ∧
+    ∀ a, ExtWalk c dist ext inCore ref w a → a = specWalk c dist ext inCore ref w :=
+  ⟨specWalk_sound c dist ext inCore w ref, fun _ h => ExtWalk.unique h⟩
+
+/-- **EXTENDERS (linear record)** — "plus any genes admitted by the rule's EXTENDERS clause".  For every
+    linear record whose genes satisfy `GeneOK`, every protocluster with a single-span core, and every
+    rule whose EXTENDERS clause is in the documented grammar: `apply_extenders` succeeds on it; the genes
+    it joins to the core are exactly those the walk rules admit — on the low side starting from the
+    first gene inside the core over the genes before the core (nearest first), on the high side starting
+    from the last gene inside the core over the genes after it, a gene being admitted iff it satisfies
+    the clause by its documented meaning (`extOK`, C01 `sem` at the gene alone) and lies within the cutoff
+    (`≤`, set-of-bases distance) of the previously admitted gene / the starting gene, the walk ending at
+    the first gene further away; the new core is the smallest span covering the old core and the admitted
+    genes; and the protocluster is that core widened by the rule's neighbourhood, clipped at the record ends.
+    (`hfirst`/`hlast`/`hsub` are what C08 establishes for `get_cds_features_within_location`.) -/
+theorem extenders_linear (within : Lookup) (r : Rec) (hlin : r.circular = false) (rules : List RuleM)
+    (pc : PC) (rule : RuleM) (hrule : findRule rules pc.rule = .ok rule) (hn : 0 ≤ rule.nbhd)
+    (hext : ∀ c, rule.extenders = some c → c.WF = true)
+    (p : Part) (hcore : pc.core = .simple p) (h0 : 0 ≤ p.lo) (h1 : p.lo < p.hi) (h2 : p.hi ≤ r.len)
+    (hgenes : ∀ g ∈ r.genes, GeneOK r.len g.loc)
+    (first last : GeneInfo) (hfirst : (within pc.core false).head? = some first)
+    (hlast : (within pc.core false).getLast? = some last) (hsub : ∀ g ∈ within pc.core false, g ∈ r.genes) :
+    ∃ back forw q1 q2 doms,
+      ExtWalk rule.cutoff (fun a b => specDistFull 0 a.loc b.loc) (extOK rule)
+        (fun g => locationContainsOther pc.core g.loc) first (walkBack r pc.core) back ∧
+      (q1.lo, q1.hi) = hullIv (pc.core :: back.map (·.loc)) ∧
+      ExtWalk rule.cutoff (fun a b => specDistFull 0 a.loc b.loc) (extOK rule)
+        (fun g => locationContainsOther (.simple q1) g.loc) last (walkForward r pc.core) forw ∧
+      (q2.lo, q2.hi) = hullIv (Loc.simple q1 :: forw.map (·.loc)) ∧
+      extendCluster within r rules pc =
+        .ok (⟨rule.name, .simple q2, .simple ⟨max 0 (q2.lo - rule.nbhd), min (q2.hi + rule.nbhd) r.len, .fwd⟩⟩, doms) :=
+  extendCluster_line within r hlin rules pc rule hrule hn hext p hcore h0 h1 h2 hgenes first last hfirst hlast hsub
+
 /-- **Superiors: exact characterisation of the implementation.**  Whenever the redundancy test of a
     protocluster `pc` returns, it returns `true` exactly when, for one of the superiors of `pc`'s rule,
     some protocluster `o` of that superior either has a core containing `pc`'s core, or its first/last
@@ -255,6 +294,26 @@ example : (match detectProtoclusters (withinSpec kfRec) kfRec kfRules with
     | .ok outs => outs.map (fun o => (o.pc.rule, o.pc.core, o.pc.loc, o.defs)) ==
         [("superior", Loc.simple ⟨110, 140, .fwd⟩, Loc.simple ⟨100, 150, .fwd⟩, [(1, ["s"])])]
     | .error _ => false) = true := by decide +kernel
+
+/-- EXTENDERS, non-trivially: anchor `a` at [3006,3008), extender genes `x` at [2005,2007) (999 bases
+    before the anchor) and `y` at [1003,1005) (1000 bases before `x`, 2001 before the anchor), cutoff 1000:
+    both are admitted because the reference moves to `x`; with cutoff 999 only `x` is (exactly the cutoff
+    away: the walk stops at `> cutoff`), with cutoff 998 neither -/
+def exRec : Rec := ⟨10014, false,
+  [⟨1, .simple ⟨1003, 1005, .fwd⟩, [("y", 0)], true⟩, ⟨2, .simple ⟨2005, 2007, .fwd⟩, [("x", 0)], true⟩,
+   ⟨4, .simple ⟨3006, 3008, .fwd⟩, [("a", 0)], true⟩]⟩
+def exRule (c : Int) : RuleM :=
+  ⟨"r0", c, 3000, .group false [.single false "a"], [], some (.cds false [.single false "x", .single false "y"])⟩
+example : (match detectProtoclusters (withinSpec exRec) exRec [exRule 1000] with
+    | .ok outs => outs.map (fun o => (o.pc.core, o.pc.loc)) == [(Loc.simple ⟨1003, 3008, .fwd⟩, Loc.simple ⟨0, 6008, .fwd⟩)]
+    | .error _ => false) = true := by decide +kernel
+example : (match detectProtoclusters (withinSpec exRec) exRec [exRule 999] with
+    | .ok outs => outs.map (fun o => (o.pc.core, o.pc.loc)) == [(Loc.simple ⟨2005, 3008, .fwd⟩, Loc.simple ⟨0, 6008, .fwd⟩)]
+    | .error _ => false) = true := by decide +kernel
+example : (match detectProtoclusters (withinSpec exRec) exRec [exRule 998] with
+    | .ok outs => outs.map (fun o => (o.pc.core, o.pc.loc)) == [(Loc.simple ⟨3006, 3008, .fwd⟩, Loc.simple ⟨6, 6008, .fwd⟩)]
+    | .error _ => false) = true := by decide +kernel
+example : extendedHull exRec (exRule 1000) (3006, 3008) = some (1003, 3008) := by decide +kernel
 
 /-- the hypotheses of `protoclusters_of_rule_linear` hold on it, and the chains are non-trivial:
     with cutoff 31 the three genes (gaps 30 and 10) are one chain, with cutoff 30 they are two -/
